@@ -42,7 +42,10 @@ type Prog struct {
 	rpoCache      map[*ssa.Function]map[*ssa.BasicBlock]int
 	inPhi         map[*ssa.Phi]bool
 	inLinPhi      map[*ssa.Phi]bool
-	phiFeasible   func(*ssa.Phi) []int   // set during SourcesAt
+	phiFeasible   func(*ssa.Phi) []int // set during SourcesAt
+	siteIndex     map[*ssa.Function][]ssa.CallInstruction
+	valueUse      map[*ssa.Function]bool
+	throughParams bool
 	phiEnv        map[*ssa.Phi]ssa.Value // set during PathCond: join phis resolved along the current path
 	localFlag     map[*ssa.Alloc]bool
 	linAt         ssa.Instruction
